@@ -369,6 +369,7 @@ func isNilValue(v ssa.Value) bool {
 }
 
 func runC03(p *an.Prog, r *an.Run, tier string) {
+	checkSurfaceClosed(p, r)
 	onClient := p.Method("pool/balance", "payPerInterval", "OnClient")
 	onUpdate := p.Method("pool/balance", "payPerInterval", "OnUpdate")
 	if onClient == nil || onUpdate == nil {
@@ -603,6 +604,34 @@ func checkCutoff(p *an.Prog, r *an.Run) {
 				if len(oa) == 2 && a[3] != oa[1] {
 					bad = append(bad, "disconnectPeers is not given the active peer list that was billed")
 				}
+				// ... which is the store's whole answer: the list handed to disconnectPeers is NodePeers' result itself
+				// (through phis), not a re-slice or filtered copy of it ("bill at most N hosts" applied to the shared
+				// variable leaves the hosts beyond N connected to a client that was cut off)
+				seenV := map[ssa.Value]bool{}
+				var whole func(v ssa.Value) bool
+				whole = func(v ssa.Value) bool {
+					if seenV[v] {
+						return true
+					}
+					seenV[v] = true
+					switch t := v.(type) {
+					case *ssa.Phi:
+						for _, e := range t.Edges {
+							if !whole(e) {
+								return false
+							}
+						}
+						return true
+					case *ssa.Extract:
+						if call, ok := t.Tuple.(*ssa.Call); ok && isStoreMethodNamed(an.CallObj(call), "NodePeers") {
+							return true
+						}
+					}
+					return false
+				}
+				if !whole(a[3]) {
+					bad = append(bad, "the peer list given to disconnectPeers is not the store's NodePeers answer as it came (re-sliced, filtered or replaced on some path): hosts left out of it keep serving a client that was cut off")
+				}
 			}
 		}
 	}
@@ -729,6 +758,7 @@ func checkCutoff(p *an.Prog, r *an.Run) {
 // ---------------------------------------------------------------------------
 
 func runC02(p *an.Prog, r *an.Run, tier string) {
+	checkSurfaceClosed(p, r)
 	onUpdate := p.Method("pool/balance", "payPerInterval", "OnUpdate")
 	ic := p.Method("pool/balance", "payPerInterval", "intervalCredit")
 	upd := p.Method("pool", "VipnodePool", "Update")
